@@ -70,27 +70,37 @@ def arith(ctx, m):
         if not data_independent(m, 'C16:arith:critical-value-data-independent:' + tz, b0 + bu + bl, {'L', 'n'}):
             continue
         ctx.record('C16:arith:critical-value-data-independent:' + tz, 'M', 'held', bound='dataflow fact read from the term', sample={'obligation': 'oracle arguments mention only the level and the count'})
-        a0 = [abs_c(x) for x in b0]
-        au, al = abs_c(bu[0]), abs_c(bl[0])
-        hy0 = [abs_c(c) for c in nokind(pc0)] + base
-        # scaling by lambda > 0
+        allp = arith_ci_all_paths(m)
+        lam_pos = [T.mk('fgt', lam, T.fconst(0))]
         sc_ = scaled(lam)
         r = lambda x: rename(x, sc_)
-        hy = hy0 + [r(h) for h in hy0] + [T.mk('fgt', lam, T.fconst(0))]
-        m.submit('C16:arith:scale:two-sided:' + tz, hy, T.and_(T.mk('feq', r(a0[0]), T.mk('fmul', lam, a0[0])), T.mk('feq', r(a0[1]), T.mk('fmul', lam, a0[1]))), key='C16:arith:scale', timeout=180,
-                 note='CI(lambda * data) = lambda * CI(data), lambda > 0')
-        # negation: mirror, upper <-> lower
         ng = scaled(T.fconst(-1))
         g = lambda x: rename(x, ng)
-        hy = hy0 + [g(h) for h in hy0]
-        m.submit('C16:arith:negate:two-sided:' + tz, hy, T.and_(T.mk('feq', g(a0[0]), T.mk('fneg', a0[1])), T.mk('feq', g(a0[1]), T.mk('fneg', a0[0]))), key='C16:arith:negate', timeout=180, note='CI(-data) = -CI(data) mirrored')
-        hyu = [abs_c(c) for c in nokind(pcl)] + [g(abs_c(c)) for c in nokind(pcu)] + base
-        m.submit('C16:arith:negate:one-sided:' + tz, hyu, T.mk('feq', g(au), T.mk('fneg', al)), key='C16:arith:negate', timeout=180, note='upper one-sided CI(-data) = -(lower one-sided CI(data))')
-        # shift
         sh = shifted(d)
         h = lambda x: rename(x, sh)
-        hy = hy0 + [h(c) for c in hy0]
-        m.submit('C16:arith:shift:two-sided:' + tz, hy, T.and_(T.mk('feq', h(a0[0]), T.mk('fadd', a0[0], d)), T.mk('feq', h(a0[1]), T.mk('fadd', a0[1], d))), key='C16:arith:shift', timeout=180, note='CI(data + d) = CI(data) + d')
+        P0, PU, PL = allp[(0, t)], allp[(1, t)], allp[(2, t)]
+        # every pair (path taken by the original state, path taken by the transformed state): on the unchanged code there is one path
+        # per kind; a change that adds a data-dependent branch (a threshold, a clamp) creates cross pairs that must agree as well
+        for i, (pci, _, bi) in enumerate(P0):
+            ai = [abs_c(x) for x in bi]
+            hyi = [abs_c(c) for c in nokind(pci)] + base
+            for j, (pcj, _, bj) in enumerate(P0):
+                aj = [abs_c(x) for x in bj]
+                hyj = [abs_c(c) for c in nokind(pcj)]
+                sfx = '' if (i, j) == (0, 0) and len(P0) == 1 else ':paths%d-%d' % (i, j)
+                vac = (i == j)
+                m.submit('C16:arith:scale:two-sided:' + tz + sfx, hyi + [r(x) for x in hyj] + [r(x) for x in base] + lam_pos, T.and_(T.mk('feq', r(aj[0]), T.mk('fmul', lam, ai[0])), T.mk('feq', r(aj[1]), T.mk('fmul', lam, ai[1]))),
+                         key='C16:arith:scale', timeout=180, note='CI(lambda * data) = lambda * CI(data), lambda > 0', vacuity=vac)
+                m.submit('C16:arith:negate:two-sided:' + tz + sfx, hyi + [g(x) for x in hyj], T.and_(T.mk('feq', g(aj[0]), T.mk('fneg', ai[1])), T.mk('feq', g(aj[1]), T.mk('fneg', ai[0]))),
+                         key='C16:arith:negate', timeout=180, note='CI(-data) = -CI(data) mirrored', vacuity=vac)
+                m.submit('C16:arith:shift:two-sided:' + tz + sfx, hyi + [h(x) for x in hyj], T.and_(T.mk('feq', h(aj[0]), T.mk('fadd', ai[0], d)), T.mk('feq', h(aj[1]), T.mk('fadd', ai[1], d))),
+                         key='C16:arith:shift', timeout=180, note='CI(data + d) = CI(data) + d', vacuity=vac)
+        for i, (pcl_, _, bl_) in enumerate(PL):
+            for j, (pcu_, _, bu_) in enumerate(PU):
+                sfx = '' if (i, j) == (0, 0) and len(PL) == 1 and len(PU) == 1 else ':paths%d-%d' % (i, j)
+                hyu = [abs_c(c) for c in nokind(pcl_)] + [g(abs_c(c)) for c in nokind(pcu_)] + base
+                m.submit('C16:arith:negate:one-sided:' + tz + sfx, hyu, T.mk('feq', g(abs_c(bu_[0])), T.mk('fneg', abs_c(bl_[0]))), key='C16:arith:negate', timeout=180,
+                         note='upper one-sided CI(-data) = -(lower one-sided CI(data))', vacuity=(len(PL) == 1 and len(PU) == 1))
     # append homogeneity
     fa = m.fn('append', 'Arithmetic', 'inherent')
     x = T.var('x')
